@@ -329,8 +329,11 @@ package labelmap
 // sendBlocksVolume (C20): the number of blocks requested is under the client's control - the stream is
 // set up only for a subvolume of at least one block in every dimension, and the buffer of blocks waiting
 // to be sent is bounded whatever the request asks for (no make(chan) with a negative or huge capacity).
+// gosync sendErr: the sender goroutine writes sendErr before wg.Done() and the function reads it only after
+// wg.Wait() - ordered by the WaitGroup, which the structural race check does not see (stated, not proved).
 //@ func Data.sendBlocksVolume
 //@   prop C20
+//@   gosync sendErr
 //@   requires d != nil
 //@   safety_off
 //@   requires_off
